@@ -19,6 +19,7 @@ var registry = map[string]func(*core.Run){
 	"C12": checks.C12,
 	"C13": checks.C13,
 	"C14": checks.C14,
+	"C15": checks.C15,
 	"C16": checks.C16,
 	"C17": checks.C17,
 	"C18": checks.C18,
